@@ -12,13 +12,15 @@ import GwcsModel.Drv.C15
 import GwcsModel.Drv.C17
 import GwcsModel.Drv.C18
 import GwcsModel.Drv.C19
+import GwcsModel.Drv.C06
 open Lean Gwcs
 
 def dispatch (j : Json) : Json :=
   match jStr (jFieldD j "prop" Json.null) with
   | some "C14" => Gwcs.Drv.C14.handle j
   | some "C08" => if jStr (jFieldD j "op" Json.null) == some "cache" then Gwcs.Drv.C08.handle j else Gwcs.Drv.Pipe.handle j
-  | some "C19" | some "C06" => Gwcs.Drv.C19.handle j
+  | some "C19" => Gwcs.Drv.C19.handle j
+  | some "C06" => Gwcs.Drv.C06.handle j
   | some "C18" => Gwcs.Drv.C18.handle j
   | some "C17" => Gwcs.Drv.C17.handle j
   | some "C15" => Gwcs.Drv.C15.handle j
